@@ -1448,7 +1448,11 @@ class Interp:
         star = None
         for a in e.args:
             if isinstance(a, ast.Starred):
-                star = self._eval(a.value, st, act)
+                sv = self._eval(a.value, st, act)
+                if sv[0] in ("tuple", "list") and star is None:
+                    args.extend(sv[1])          # f(*(a, b)) is f(a, b)
+                else:
+                    star = sv
             else:
                 args.append(self._eval(a, st, act))
         dstar = []
